@@ -71,6 +71,42 @@ def rule_normaliser(ctx: Ctx) -> None:  # noqa: C901
             ctx.add("2-normaliser", fn, cfg.stmt[raw[0]] if raw else cfg.stmt[n0], not raw and fd == want, f"normalised (for_dump={fd}) before any other use of the key ({len(users)} later use(s))" if not raw and fd == want else (
                 f"`{norm(cfg.stmt[raw[0]])[:60]}` uses the key before/without normalisation in {cls.name}.{mname}: negative, out-of-range or wrong-rank keys behave differently from the other backends" if raw else
                 f"{cls.name}.{mname} normalises with for_dump={fd}"), key=f"{cls.name}.{mname}")
+    # the RAW key may still be handed on after the normalised copy was made; whoever receives it must normalise it again before
+    # using it (FileArray.__getitem__ hands its raw key to _slice_indices) - otherwise negative integers reach the index arithmetic
+    from ..flow import bind_args
+
+    n_raw = 0
+    for cq in KEYED:
+        cls = P.cls(cq)
+        for mname in ("__getitem__", "dump"):
+            fn = cls.methods[mname]
+            keyp = [p for p in fn.param_names() if p != "self"][0]
+            fcfg = ctx.cfg(fn)
+            rebinds = fcfg.nodes(lambda st, keyp=keyp: isinstance(st, (ast.Assign, ast.AnnAssign)) and isinstance(st.value, ast.Call) and dotted(st.value.func).rsplit(".", 1)[-1] in ("normalize_key", "_normalize_key")
+                                 and st.value.args and norm(st.value.args[0]) == keyp and any(isinstance(t, ast.Name) and t.id == keyp for t in (st.targets if isinstance(st, ast.Assign) else [st.target])))
+            for s_ in ctx.cg.sites.get(fn.qualname, []):
+                if s_.kind != "call":
+                    continue
+                sn = fcfg.node_containing(s_.node)
+                if sn is not None and any(fcfg.dominates(r_, sn) for r_ in rebinds):
+                    continue  # `key = normalize_key(key, ...)`: the name holds the normalised key from here on
+                for callee in s_.callees:
+                    if callee.name in ("normalize_key", "_normalize_key") or not callee.module.name.startswith(SA):
+                        continue
+                    for prm, a_ in bind_args(s_.node, callee).items():
+                        if not (isinstance(a_, ast.Name) and a_.id == keyp):
+                            continue
+                        n_raw += 1
+                        ccfg = ctx.cfg(callee)
+                        nn = ccfg.nodes(lambda st, prm=prm: isinstance(st, (ast.Assign, ast.AnnAssign)) and isinstance(st.value, ast.Call) and dotted(st.value.func).rsplit(".", 1)[-1] in ("normalize_key", "_normalize_key")
+                                        and st.value.args and norm(st.value.args[0]) == prm)
+                        uses = [u for u in ccfg.nodes() if u not in nn and any(isinstance(x, ast.Name) and x.id == prm and isinstance(x.ctx, ast.Load) for part in header_parts(ccfg.stmt[u]) for x in ast.walk(part))]
+                        consuming = [u for u in uses if not any(ccfg.dominates(n_, u) for n_ in nn) and not isinstance(ccfg.stmt[u], (ast.Assert, ast.Raise))
+                                     and not (isinstance(ccfg.stmt[u], ast.If) and all(isinstance(c_, ast.Call) and dotted(c_.func) == "isinstance" for c_ in ast.walk(ccfg.stmt[u].test) if isinstance(c_, ast.Call)) and "isinstance" in norm(ccfg.stmt[u].test))]
+                        ctx.add("2-normaliser", callee, ccfg.stmt[consuming[0]] if consuming else callee.node, not consuming, f"{callee.name} normalises the raw key it receives from {cls.name}.{mname} before using it" if not consuming else
+                                f"{cls.name}.{mname} hands its RAW key to {callee.name}, where `{norm(ccfg.stmt[consuming[0]])[:60]}` uses it without normalising it: a negative integer next to a slice addresses non-existent elements "
+                                "(written elements read back masked; the backends disagree)", key=f"raw-key {cls.name}.{mname}->{callee.name}")
+    ctx.floor("2-normaliser.raw-key-handoffs", n_raw, 1)
     nk = P.func(f"{SA}._base.normalize_key")
     rej = []
     for f_ in Scope(ctx, nk).funcs:
@@ -228,8 +264,37 @@ def rule_siblings(ctx: Ctx) -> None:
             "DictArray.__getitem__ never yields a masked value: a missing element raises KeyError instead of reading as masked", key="dict-missing")
 
 
+def rule_shape_from_key(ctx: Ctx) -> None:
+    """The shape of what a read returns is decided by the KEY (one axis per slice), never by the stored values or the lengths of
+    the axes.  Two NumPy operations decide it from the data instead:
+      * `x.squeeze()` / `np.squeeze(x)` without `axis=` drops EVERY axis of length 1 - also a sliced axis that happens to have
+        one element (a 0-d array instead of shape (1,));
+      * `np.array(values, dtype=object)` / `np.asarray(..., dtype=object)` inspects the values: equal-length sequences become extra
+        dimensions (the element container has to be allocated with np.empty and filled by assignment)."""
+    P = ctx.prog
+    bad: list[tuple[FuncInfo, ast.AST, str]] = []
+    n = 0
+    for fn in P.functions.values():
+        if not fn.module.name.startswith(SA) or fn.module.name.endswith("_zarr"):
+            continue
+        n += 1
+        for c in walk_no_nested(fn.node):
+            if not isinstance(c, ast.Call):
+                continue
+            nm = dotted(c.func)
+            if ((isinstance(c.func, ast.Attribute) and c.func.attr == "squeeze" and nm not in ("np.squeeze", "numpy.squeeze") and not c.args) or (nm in ("np.squeeze", "numpy.squeeze") and len(c.args) == 1)) \
+                    and not any(k.arg == "axis" for k in c.keywords):
+                bad.append((fn, c, f"`{norm(c)[:50]}` drops every axis of length 1: a slice over an axis with a single element no longer yields an axis (shape () instead of (1,)), the rank of the result depends on the axis lengths"))
+            if nm in ("np.array", "np.asarray", "numpy.array", "numpy.asarray", "np.ma.array", "np.ma.asarray") and c.args and not isinstance(c.args[0], ast.Constant) \
+                    and any(k.arg == "dtype" and norm(k.value) in ("object", "'object'", "np.object_", "'O'") for k in c.keywords):
+                bad.append((fn, c, f"`{norm(c)[:60]}` lets NumPy infer the shape from the stored VALUES: when the selected elements are equal-length sequences (tuples, lists, arrays) they become extra dimensions and the mask no longer fits "
+                            "(MaskError / wrong shape); allocate with np.empty(n, dtype=object) and assign"))
+    ctx.add("5-siblings", bad[0][0] if bad else SA, bad[0][1] if bad else "", not bad, f"no read path derives the shape of its result from the data ({n} storage functions: no axis-less squeeze, no np.array(values, dtype=object))" if not bad else bad[0][2],
+            key="shape-from-key")
+
+
 def check(ctx: Ctx) -> None:
-    for rule in (rule_rank_domain, rule_normaliser, rule_interface, rule_row_major, rule_siblings):
+    for rule in (rule_rank_domain, rule_normaliser, rule_interface, rule_row_major, rule_siblings, rule_shape_from_key):
         ctx.run(rule)
 
 
